@@ -2,6 +2,7 @@
 import re
 import vdriver as V
 import C20
+import C10
 
 H = "vnacal/c18.c"
 
@@ -32,6 +33,11 @@ def jobs(tier):
                                   "_vnacal_new_solve_next_term"],
                        bound="%s 2x2, two exactly determined systems (through + short/open/match on each port), all measurements 1" % t,
                        timeout=400))
+    for j in C10.jobs("quick"):
+        if j.name in ("range.m_error", "spline.knots.n1", "spline.knots.n2", "spline.linear"):
+            j.name = "noise_grid." + j.name      # clause: noise vectors on their own grid pass through the given points
+            j.canary = False
+            J.append(j)
     return J
 
 
